@@ -6,31 +6,63 @@ import subprocess
 
 VERIF = os.path.dirname(os.path.dirname(os.path.abspath(__file__)))
 
-K = "Kani 0.68 / CBMC 6.11 bounded model checking of the compiled crate code (symbolic inputs, CaDiCaL verdict, unwinding assertions on, kani::cover! vacuity witnesses, concrete-playback replay)"
-M = "mirsym: symbolic execution of rustc MIR of the real functions into SMT (z3, cross-checked with cvc5), SQL text translated to SMT over a bounded symbolic lease table; one inductive step from an arbitrary table"
+K = "Kani 0.68 / CBMC 6.11 bounded model checking of the compiled crate code (symbolic inputs, CaDiCaL verdict, unwinding assertions on, kani::cover! vacuity witnesses, concrete-playback replay in dev and release-like profiles)"
+M = "mirsym: symbolic execution of rustc MIR (nightly -Zunpretty=mir of the current tree) of the real functions into SMT (z3), SQL text translated to SMT over a bounded symbolic lease table; one inductive step from an arbitrary table; counterexamples replayed on the real Pool"
+MS = "symbolic execution of rustc MIR of the real functions into SMT (z3) with SQL->SMT over a bounded symbolic lease table; inductive single step; native replay of counterexamples"
+KB = "bounded model checking (Kani/CBMC) of the compiled crate code"
+
+POOL_NOTE = ("Assumes: SQLite executes each statement and its meaning is the SQL->SMT translation of the SQL text found at the call site; wall clock non-decreasing and now + max lease < 2^32 "
+             "(year-2106 wrap outside the claim); lease table bounded as stated per obligation (every query touches the asker's rows and at most one candidate row per pool address); "
+             "externals summarised by contract (list in evidence). NOT decided: concurrent packets (tokio mutex not encoded), reply assembly in handle_pkt/handle_request "
+             "(HashMap-based, outside the encoder), durability (C18).")
 
 CLAIMS = {
-    "C07": dict(
-        technique="bounded model checking (Kani/CBMC) of the reply-source-address conversion only",
-        text="Solver-decided for all 2^32 / 2^128 addresses: the address the kernel reported as the query's destination is, byte for byte, the address placed in the reply's IP_PKTINFO/IPV6_PKTINFO control message (std_to_libc_in_addr / in6_addr, RecvMsg::local_ip, ControlMessage::convert_to_cmsg). This is ONE mechanism of C07 (src(resp)=dst(q) on IPv4-only and IPv6 listeners).",
-        note="NOT decided here: exactly-one-reply, matching of answers to questions under reordering/duplication/loss, retransmission and SERVFAIL-on-silence. Those are tokio concurrency over sockets; Kani does not model concurrency and the coroutine MIR is outside the MIR->SMT encoder. Trusted: Kani's model of libc structs, little-endian x86_64 target.",
-        design="3/C07"),
-    "C08": dict(
-        technique="bounded model checking (Kani/CBMC) of prefix containment and ACL evaluation",
-        text="Solver-decided over all addresses and prefix lengths (host bits free): Prefix4/Prefix6/Prefix::contains for v4, v6 and v4-mapped clients equals mask semantics on the written prefix; Acl::check / require_permission on rule lists of bounded concrete shape with symbolic contents: granted <=> first matching rule has the permission bit.",
-        note="NOT decided: which permission each HTTP path asks for (hyper request types and a DhcpService holding sockets cannot be built under Kani), the async DNS ACL entry point under tokio locks. Rule lists bounded as stated per obligation.",
-        design="3/C08"),
-    "C16": dict(
-        technique="bounded model checking (Kani/CBMC) of the token bucket with a symbolic clock, inductive potential-function step",
-        text="Solver-decided: one charge attempt from an arbitrary reachable bucket state under an arbitrary non-decreasing clock never releases more than credit + rate*dt (telescopes to burst + rate*elapsed for histories of any length; cross-checked directly for 2-3 attempts); a source idle for the refill period is granted the minimum cost that should_ratelimit charges (constant extracted from the source on every run).",
-        note="NOT decided: the two-bucket hashing in IpRateLimiter::check (async, tokio locks, SipHash), the check-then-deplete race under concurrent packets, and the whole cookie sub-claim (HMAC-SHA-256 is not something a SAT back end inverts). Clock values < B/R seconds and the year-2106 wrap are outside the bound.",
-        design="3/C16"),
+    "C01": dict(engine="mirsym", technique=MS, design="3/C01", note=POOL_NOTE,
+                text="Solver-decided for ONE allocate_address step from every lease table the representation invariant admits (<= 2 rows quick / 3 thorough, all columns symbolic), every client, requested address, pool set of <= 2 (3) symbolic addresses, min/max lease and non-decreasing clock: a granted address is not held unexpired by another client, ends up as exactly one row owned by the asker and is a pool member; the invariant is re-established; a refusal leaves the table untouched. Induction over the step covers histories of any length, pool changes between messages and restarts."),
+    "C02": dict(engine="kani+mirsym", technique=KB + " (prefix arithmetic); " + MS + " (pool membership of every grant)", design="3/C02",
+                text="Solver-decided: Prefix4 / Ipv4Subnet network, netmask, broadcast and containment equal mask arithmetic for all addresses and prefix lengths; every address granted by allocate_address is a member of the address set handed down by the policy layer (all grant paths, inductive step as C01).",
+                note="NOT decided (outside both engines: HashSet construction inside iterator closures, YAML walker): that build_default_config / apply-subnet / apply-range expand to exactly the documented host set, reservation subtraction, draining a pool through real packets. " + POOL_NOTE),
+    "C05": dict(technique=KB + " on parser skeletons (length/type fields enumerated over boundary values, contents symbolic)", design="3/C05",
+                text="Solver-decided panic-freedom (Kani's overflow, bounds, unwrap, assert checks + unwinding assertions) of: the pktparser cursor (any 3 operations, buffers <= 8 octets), dhcppkt::parse at every field-boundary truncation and on fully symbolic 241-octet headers, EDNS COOKIE/EDE accessors for option lengths 0..40, LLDP TLV / management-address / packet decoders and (where present) ICMPv6 option decoders on skeleton families.",
+                note="NOT decided: arbitrary byte strings beyond the skeleton families and sizes stated per obligation; DHCP option decoding through parse_options and the DNS message parser on symbolic input (HashMap inserts / symbolic-length copies are out of CBMC's reach); stack depth of recursive name compression; 'the service still answers the next request' (process liveness; socket loops such as lldp/mod.rs:24 buffer[14..]). Kani models the dev profile (overflow checks on)."),
+    "C06": dict(technique=KB + " of the lifetime / TTL-ageing kernels", design="3/C06",
+                text="Solver-decided: DNSPkt::get_expiry equals the minimum TTL over answer+authority+additional (zero for an empty reply) for all 32-bit TTLs on bounded section shapes; clone_with_ttl_decrement yields TTL - elapsed exactly (never grows, never wraps) and changes nothing else, under the cache's precondition elapsed <= lifetime.",
+                note="NOT decided: the cache map itself (get_entry / insert / expire go through HashMap and prometheus counters: out of CBMC's reach) - in particular that the decrement handed over is floor(now - birth) <= lifetime and that keys compare all four fields; the class-IN gate and lock interleavings of the async handler. Stub: derived <RData as Clone>::clone restricted to the variant the harness builds."),
+    "C07": dict(technique="bounded model checking (Kani/CBMC) of the reply-source-address conversion only", design="3/C07",
+                text="Solver-decided for all 2^32 / 2^128 addresses: the address the kernel reported as the query's destination is, byte for byte, the address placed in the reply's IP_PKTINFO/IPV6_PKTINFO control message (std_to_libc_in_addr / in6_addr, RecvMsg::local_ip, ControlMessage::convert_to_cmsg). This is ONE mechanism of C07 (src(resp)=dst(q) on IPv4-only and IPv6 listeners).",
+                note="NOT decided here: exactly-one-reply, matching of answers to questions under reordering/duplication/loss, retransmission and SERVFAIL-on-silence. Those are tokio concurrency over sockets; Kani does not model concurrency and coroutine MIR is outside the MIR->SMT encoder. Trusted: Kani's model of libc structs, little-endian x86_64 target."),
+    "C08": dict(technique=KB + " of prefix containment and ACL evaluation", design="3/C08",
+                text="Solver-decided over all addresses and prefix lengths (host bits free): Prefix4/Prefix6/Prefix::contains for v4, v6 and v4-mapped clients equals mask semantics on the written prefix; require_permission / Acl::check on rule lists of bounded concrete shape (<= 3 rules, subnet lists of 0..2 prefixes, unix flag absent/true/false) with symbolic contents, network and unix-socket clients, all 4 operations: granted <=> the first matching rule has the permission bit; no match => NotAuthenticated; default_acls.",
+                note="NOT decided: which permission each HTTP path asks for (hyper request types and a DhcpService holding sockets cannot be built under Kani) and the async DNS ACL entry point (reaches the tokio/socket stack: kani-compiler ICE; lifted copy exceeds CBMC memory). Rule lists bounded as stated per obligation."),
+    "C09": dict(engine="mirsym", technique=MS, design="3/C09", note=POOL_NOTE + " Known finding F-C09-1 (known_findings.json) is reported, not raised.",
+                text="Solver-decided on the same inductive step as C01: a client holding an unexpired lease inside the pool gets one of those addresses (the named one if it holds it); a request is refused only with NoAssignableAddress and only if every pool address is held, unexpired, by another client. The claims are checked separately with and without the pre-state condition of known finding F-C09-1, so any violation outside that condition is still raised."),
+    "C10": dict(engine="mirsym", technique=MS, design="3/C10", note=POOL_NOTE + " NOT decided: that the OFFER/ACK actually carries option 51 (reply assembly is HashMap-based, outside the encoder).",
+                text="Solver-decided on the same inductive step: the lease duration returned by the pool lies within [min, max] for every symbolic min <= max; the stored row has start = reply time and expiry = start + advertised lease without wrap (so recorded_expiry - recorded_start = L and recorded_expiry >= t + L); no arithmetic panic (rustc's overflow assertions are kept as obligations) on any path, for any renewal rhythm (arbitrary pre-state row)."),
+    "C12": dict(technique=KB + " of the DHCP codec kernels and the Ethernet/IPv4/UDP frame builder", design="3/C12",
+                text="Solver-decided: get_broadcast_flag <=> flags & 0x8000 for all 65536 flag values; serialise_option output decodes (RFC 2132/3396 reference decoder in the harness) to the original value for lengths {0,1,2,7,255,256} (300/511 thorough); fixed-header parse(serialise(m)) = m for all header values (hlen 6 quick; 0 and 16 thorough); new_udp4 frames for payloads 0..2 (3,4,7 thorough): layout, lengths, addresses, ports, payload, verifying IPv4 and UDP checksums against an independent summation (thorough tier: frame harnesses need 4-8 min each).",
+                note="NOT decided: decoding of option multisets through the real parse_options and encoding from the real map (HashMap: out of CBMC's reach) - the decoder side is a reference decoder; payloads > 7 octets; which destination recvdhcp chooses (async socket code; only the flag predicate is decided). UDP-checksum harnesses exceed 14 GB at unwind 12 and are reported inconclusive where they do."),
+    "C13": dict(engine="mirsym", technique=MS, design="3/C13", note=POOL_NOTE + " NOT decided: the message-type dispatch and foreign-server-id rejection in handle_pkt/handle_request and the echoed header fields (HashMap-based option access, outside the encoder).",
+                text="Solver-decided for the lease-store half of C13 on the inductive step: a successful allocation changes only the row of the granted address, a refused one changes nothing (no write is executed on any error path)."),
+    "C15": dict(technique=KB + " of the suffix relation and ordering kernels", design="3/C15",
+                text="Solver-decided: Domain::ends_with equals the whole-label, ASCII-case-insensitive suffix relation for 3-label names against suffixes of 0..4 labels with all octets symbolic (so every case mix); compare_longest_suffix orders longer suffixes first, antisymmetric, Equal only for identical suffixes.",
+                note="NOT decided: the selection loop and action dispatch inside the async DnsRouteHandler::handle_query (reaches the tokio/socket stack: kani-compiler ICE; its lifted synchronous copy runs CBMC out of memory beyond 1 route - harnesses kept in the thorough tier and reported inconclusive), which upstream receives a forwarded query."),
+    "C16": dict(technique=KB + " of the token bucket with a symbolic clock (inductive potential-function step) and of the lifted cost expression", design="3/C16",
+                text="Solver-decided: one charge attempt from an arbitrary reachable bucket state under an arbitrary non-decreasing clock never releases more than credit + rate*dt (telescopes to burst + rate*elapsed for histories of any length; cross-checked directly for 2-3 attempts); a source idle for the refill period is granted the minimum cost should_ratelimit charges (constant extracted from the source on every run).",
+                note="NOT decided: the two-bucket hashing in IpRateLimiter::check (async, tokio locks, SipHash), the check-then-deplete race under concurrent packets, and the whole cookie sub-claim (HMAC-SHA-256 is not something a SAT back end inverts). Clock values < B/R seconds and the year-2106 wrap are outside the bound."),
+    "C20": dict(engine="mirsym", technique=MS, design="3/C20", note="Assumptions as C01. NOT decided: the JSON lease listing (serve_leases needs a DhcpService with sockets and goes through format!/{:?}); that update_metrics stores first->active, second->expired (async; read, not decided).",
+                text="Solver-decided: get_pool_metrics returns Ok((|{expiry > now}|, |{expiry <= now}|)) for every lease table of <= 2 rows (4 thorough) including the empty one (SQLite's NULL-on-empty SUM is modelled), for every clock value."),
 }
 
 PENDING = {}
 
 NOT_APPLICABLE = {
     "C18": "persistence across restart/upgrade/crash lives in SQLite's file format, journal and fsync behind FFI and the filesystem; neither Kani nor the MIR->SMT encoder executes it, and a model of SQLite durability would be an assumption rather than the code",
+    "C03": "create_in_reply / create_outquery are async fns that statically reach the tokio/socket/HMAC stack (kani-compiler ICE during reachability; Kani refuses to stub async fns); the lifted synchronous copy clones record vectors of enum-with-heap values, which runs CBMC out of memory; coroutine MIR is outside the MIR->SMT encoder. Not claimed in this round.",
+    "C04": "serialise_with_size and the DNS parser need symbolic-length vector copies and a domain-compression tree of heap nodes: measured out of CBMC's reach (>15 min / out of memory) even on 35-octet skeletons; per-transport size limits live in tokio socket tasks. Not claimed in this round.",
+    "C11": "policy evaluation runs over HashMap/HashSet-valued option tables (apply_policy, ResponseOptions): not executable by Kani; the MIR->SMT encoder has no map/trait-object (DhcpOptionTypeValue serialise) summaries yet. Not claimed in this round.",
+    "C14": "DNS decode/encode round trip: parser and compressor are out of CBMC's reach on symbolic input (symbolic-length copies, recursive heap tree; measured >15 min on 18 symbolic octets). Not claimed in this round.",
+    "C17": "check under construction (Kani harnesses over build_announcement_pure + icmppkt::serialise); not registered until it is stable on the unchanged tree",
+    "C19": "check under construction (Kani harnesses over the config leaf parsers); not registered until it is stable on the unchanged tree",
 }
 
 ALL = ["C%02d" % i for i in range(1, 21)]
@@ -60,20 +92,20 @@ def main():
     for pid in ALL:
         if pid in CLAIMS:
             continue
-        reason = NOT_APPLICABLE.get(pid) or PENDING.get(pid) or "check not built yet in this round (planned, see DESIGN.md section 3)"
+        reason = NOT_APPLICABLE.get(pid) or PENDING.get(pid) or "check not built yet in this round"
         na.append(dict(property_id=pid, reason=reason))
     man = dict(
         version=1,
         setup_cmd="./check --setup",
         hooks=dict(
             guard="cargo feature isomer_erbium_verif (erbium-core, erbium-net)",
-            enable="cargo kani -p <crate> --features isomer_erbium_verif with ISOMER_ERBIUM_VERIF_DIR=/verif/kani: each source file ends in a cfg-guarded private module that include!s /verif/kani/<module>.rs, giving harnesses access to crate-private items; nothing is compiled with the feature off",
+            enable="cargo kani -p <crate> --features isomer_erbium_verif with ISOMER_ERBIUM_VERIF_DIR=/verif/kani (and VERIF_GEN_DIR for lifted sources): each source file ends in a cfg-guarded private module that include!s /verif/kani/<module>.rs, giving harnesses access to crate-private items; nothing is compiled with the feature off. The mirsym engine needs no hook for deciding (it reads the nightly MIR dump of the unmodified crate); its native replay test lives in /verif/kani/dhcp_pool.rs behind the same feature.",
             baseline_off_cmd="cd /repo && cargo test --workspace --no-fail-fast --offline",
             source_commits=hook_commits,
             add_only=True,
         ),
         engines=[
-            dict(name="kani", path="/verif/kani", serves_properties=sorted(p for p, c in CLAIMS.items() if c.get("engine", "kani") in ("kani", "kani+mirsym")),
+            dict(name="kani", path="/verif/kani", serves_properties=sorted(p for p, c in CLAIMS.items() if "kani" in c.get("engine", "kani")),
                  kind_free_text=K),
             dict(name="mirsym", path="/verif/lib/mirsym", serves_properties=sorted(p for p, c in CLAIMS.items() if "mirsym" in c.get("engine", "")),
                  kind_free_text=M),
